@@ -94,6 +94,11 @@ func VF_C19_Rest() {
 		}
 	}
 	t1 := c19Targets[vf.Choice("target", len(c19Targets))]
+	vf.Quiesce()
+	pubBefore, endBefore := len(w.mq.Published), uint64(0)
+	if d0, _ := w.store.GetDatatypeByKey(context0(), 1, vfKey); d0 != nil {
+		endBefore = d0.Sseq.End
+	}
 	res, err := w.svc.PatchDocument(gocontext.TODO(), &model.PatchMessage{Key: vfKey, Collection: vfCol, Json: t1})
 	vf.Reach("patched")
 	vf.Assert(err == nil && res != nil, "C19 the REST patch is answered")
@@ -107,6 +112,17 @@ func VF_C19_Rest() {
 	vf.Assert(ok && d != nil, "C19 the document exists after the patch")
 	vf.Assert(jsonEq(sv, parseJSON(t1)), "C19 the stored document (rebuilt from the log) equals the target")
 	vf.Assert(last == d.Sseq.End && w.logInvariant(d.DUID), "C19/C06 the patch operations are appended to a gapless log")
+	// C18: the patch is a push like any other - if it stored operations it is announced once
+	vf.Quiesce()
+	if d.Sseq.End > endBefore {
+		vf.Assert(len(w.mq.Published) == pubBefore+1, "C18 a REST patch that stored operations is announced exactly once")
+		pub := w.mq.Published[len(w.mq.Published)-1]
+		var note model.Notification
+		vf.Assert(pub.Topic == vfCol+"/"+vfKey && json.Unmarshal(pub.Payload, &note) == nil, "C18 topic is collection/key and the payload decodes")
+		vf.Assert(note.DUID == d.DUID && note.Sseq == d.Sseq.End && note.CUID != vfCUIDx, "C18 the announcement carries the datatype, the new end of the log and the pusher")
+	} else {
+		vf.Assert(len(w.mq.Published) == pubBefore, "C18 a patch that stored nothing publishes nothing")
+	}
 	// a subscribed client converges to the target
 	if scenario == 0 {
 		doc = a.cli.SubscribeDocument(vfKey, a.handlers())
